@@ -172,7 +172,7 @@ class _Lookup(dict):
 class OneHotEncoder(Encoder[Tuple[int,...]]):
     """An Encoder implementation that turns incoming values into a one hot representation."""
 
-    def __init__(self, values: Sequence[Any] = [], err_if_unknown = False) -> None:
+    def __init__(self, values: Sequence[Any] = None, err_if_unknown = False) -> None:
         """Instantiate a OneHotEncoder.
 
         Args:
@@ -184,7 +184,7 @@ class OneHotEncoder(Encoder[Tuple[int,...]]):
         self._onehots        = None
         self._default        = None
 
-        if values:
+        if values is not None:
 
             values = sorted(set(values), key=lambda v: values.index(v))
 
@@ -229,16 +229,19 @@ class OneHotEncoder(Encoder[Tuple[int,...]]):
 class CategoricalEncoder(Encoder[Categorical]):
     """An Encoder implementation that turns incoming values into a one hot representation."""
 
-    def __init__(self, values: Sequence[str] = []) -> None:
+    def __init__(self, values: Sequence[str] = None) -> None:
         """Instantiate a OneHotEncoder.
 
         Args:
             values: Provide the universe of values for encoding and set `is_fit==True`.
         """
 
-        set_values = set(values)
-        if len(values) != len(set_values): values = sorted(set_values)
-        self._categoricals = {v: Categorical(v,values) for v in sorted(set(values)) } if values else None
+        if values is None:
+            self._categoricals = None
+        else:
+            set_values = set(values)
+            if len(values) != len(set_values): values = sorted(set_values)
+            self._categoricals = {v: Categorical(v,values) for v in sorted(set_values) }
 
     @property
     def is_fit(self) -> bool:
@@ -266,7 +269,7 @@ class CategoricalEncoder(Encoder[Categorical]):
 class FactorEncoder(Encoder[int]):
     """An Encoder implementation that turns incoming values into factor representation."""
 
-    def __init__(self, values: Sequence[Any] = [], err_if_unknown = False) -> None:
+    def __init__(self, values: Sequence[Any] = None, err_if_unknown = False) -> None:
         """Instantiate a FactorEncoder.
 
         Args:
@@ -277,7 +280,7 @@ class FactorEncoder(Encoder[int]):
         self._err_if_unknown = err_if_unknown
         self._levels         = None
 
-        if values:
+        if values is not None:
             values = sorted(set(values), key=lambda v: values.index(v))
             levels  = [ i + 1 for i in range(len(values)) ]
 
